@@ -33,13 +33,20 @@ let list_of (s : string) : string list = if s = "" || s = "none" then [] else sp
 
 let scheme_of = function "cenc" -> Cenc | "cbcs" -> Cbcs | _ -> SchemeOther
 
-let kind_of = function
+(* sbgp / sgpd carry their grouping type: sbgp~<8 hex digits> *)
+let kind_of s =
+  match s with
   | "saiz" -> TSaiz | "saio" -> TSaio | "senc" -> TSenc | "usenc" -> TUuidSenc | "uuid" -> TUuidOther
-  | "trun" -> TTrun | _ -> TOther
+  | "trun" -> TTrun
+  | _ ->
+    if S.length s = 13 && S.sub s 0 5 = "sbgp~" then TSbgp (n_of_int (int_of_string ("0x" ^ S.sub s 5 8)))
+    else if S.length s = 13 && S.sub s 0 5 = "sgpd~" then TSgpd (n_of_int (int_of_string ("0x" ^ S.sub s 5 8)))
+    else TOther
 
 let kind_name = function
   | TSaiz -> "saiz" | TSaio -> "saio" | TSenc -> "senc" | TUuidSenc -> "usenc" | TUuidOther -> "uuid"
   | TTrun -> "trun" | TOther -> "other"
+  | TSbgp g -> Printf.sprintf "sbgp~%08x" (int_of_n g) | TSgpd g -> Printf.sprintf "sgpd~%08x" (int_of_n g)
 
 (* box lists: kind:size:id,kind:size:id *)
 let tboxes_of (s : string) : tbox list =
@@ -216,7 +223,7 @@ let () =
             L.rev acc
           else L.map (fun (_, ssps) -> { e_iv = []; e_ssps = ssps; e_data = [] }) descs in
         let model =
-          match saiz_of saiz_empty encs, senc_of senc_empty encs with
+          match saiz_of saiz_empty encs, senc_of_r senc_empty encs with
           | Ok z, Ok s when (match senc_calc_size s with Ok _ -> false | _ -> true) ->
             ignore z; res_name (senc_calc_size s)   (* the saio loop of EncryptFragment calls senc.Size() *)
           | Ok z, Ok s ->
